@@ -123,7 +123,9 @@ def do_after_next(
             except Exception as e:  # pylint: disable=broad-except
                 observer.on_error(e)
 
-        return source.subscribe(on_next, observer.on_error, observer.on_completed)
+        return source.subscribe(
+            on_next, observer.on_error, observer.on_completed, scheduler=scheduler
+        )
 
     return Observable(subscribe)
 
